@@ -203,17 +203,25 @@ class WorldGen:
         at = docs(rng, o)
         defaultable = rng.random() < o.p_flags
         dflt = rng.randrange(n) if defaultable else None
+        used_vals = set()
         for i in range(n):
             expr = None
             if i == 0 and cur != 0 or rng.random() < 0.4:
                 cur = cur + rng.choice([0, 1, 2, 10]) if i else cur
+                if i and rng.random() < 0.3:
+                    # an explicit value below an earlier one (legal as long as it is not taken)
+                    low = [v for v in range(max(lo, 0), max(lo, 0) + 40) if v not in used_vals and v + 1 not in used_vals]
+                    if low: cur = rng.choice(low[:8])
                 if cur > hi:
                     cur = hi
                 expr = e_int(cur)
-            if cur > hi:
+            if cur > hi or cur in used_vals:
                 break
+            used_vals.add(cur)
             stmts.append(enum_stmt('V%d' % i, expr, [a_ident('default')] if dflt == i else []))
             cur += 1
+        if not stmts:
+            stmts.append(enum_stmt('V0', None, [a_ident('default')] if dflt is not None else []))
         if dflt is not None and dflt >= len(stmts):
             stmts[-1] = enum_stmt(stmts[-1][1], sexp_opt(stmts[-1][2]), [a_ident('default')])
         copyable = rng.random() < o.p_flags
@@ -306,7 +314,7 @@ class WorldGen:
                 fat.append(a_int('address', off))
             elif need:
                 if rng.random() < 0.5:
-                    stmts.append(field(False, '_', ty_unk(need), []))
+                    stmts.append(field(rng.random() < 0.3, '_', ty_unk(need), docs(rng, o)))
                 else:
                     pn = self.fresh('_pad')
                     stmts.append(field(False, pn, ty_arr(ty_id('u8'), need), []))
@@ -314,7 +322,7 @@ class WorldGen:
                 off += need
             elif r < o.p_explicit_addr + o.p_gap and not is_base:
                 g = rng.choice([1, 2, 4, 8]) * (a or 1)
-                stmts.append(field(False, '_', ty_unk(g), []))
+                stmts.append(field(rng.random() < 0.3, '_', ty_unk(g), docs(rng, o)))
                 nregions += 1; sole_align = 1
                 off += g
             pubf = rng.random() > o.p_priv or (is_base and o.pub_bases)
@@ -507,6 +515,8 @@ OPAQUE_ITEMS = [
     'pub fn helper() -> u32 { 7 }',
     'pub static S: u8 = 3;\npub type Alias = u64;',
     'const A: usize = 0x10;\nconst B: usize = 2;',
+    'pub const TRAILING: u8 = 1; // a trailing line comment',
+    '/* a block comment */ pub const AFTER: u8 = 2;',
 ]
 
 
